@@ -4,8 +4,11 @@ import (
 	"fmt"
 	"strings"
 
+	"github.com/dave/jennifer/jen"
+
 	"verif/internal/ev"
 	"verif/internal/imp"
+	"verif/internal/jh"
 )
 
 // C06: references to the local package and to dot-imports are unqualified.
@@ -16,6 +19,9 @@ func c06Family(name, local string, ctors []string, near []string) *family {
 	names := map[string]string{"x/d1": "d1", "y/d1": "d1", "X/D1": "d1"}
 	for _, p := range near {
 		names[p] = "c"
+		if n, std := imp.StdNames[p]; std {
+			names[p] = n // a standard-library package is known to jennifer under its real name
+		}
 	}
 	// a gennames-sized table (70 entries) that also names the paths of this family
 	big := append([]string{}, paths...)
@@ -51,6 +57,9 @@ var c06Check = &impCheck{
 		c06Family("single", "c", []string{"NewFilePathName", "NewFilePath", "NewFilePathName:_test"}, []string{"c/", "a/c", "C1", "c/c", "c_test", "vendor/c"}),
 		c06Family("slash", "x/y/c/", []string{"NewFilePath", "NewFilePathName"}, []string{"x/y/c", "x/y/c//", "y/c/"}),
 		c06Family("version", "x/foo/v2", []string{"NewFilePath", "NewFilePathName"}, []string{"x/foo", "x/foo/v3", "x/foo/v2/sub", "foo/v2"}),
+		// the File's own path ends in _test (an external test package) / is a standard-library path
+		c06Family("testpath", "a.b/c_test", []string{"NewFilePath", "NewFilePathName"}, []string{"a.b/c", "a.b/c_test/x", "a.b/c_tes"}),
+		c06Family("stdlocal", "encoding/json", []string{"NewFilePath", "NewFilePathName", "NewFilePathName:json"}, []string{"encoding", "x/encoding/json", "encoding/json/v2"}),
 	},
 }
 
@@ -101,14 +110,63 @@ func c06Scale(r *ev.Recorder) {
 	}
 }
 
+// c06Fragments: references to the File's own path and to a dot-imported path rendered as
+// stand-alone fragments with the File: bare names, for every constructor, prefix on/off, before and
+// after a File.Render.
+func c06Fragments(r *ev.Recorder) {
+	for _, ctor := range []string{"NewFilePath", "NewFilePathName"} {
+		for variant := 0; variant < 8; variant++ {
+			var f *jen.File
+			if ctor == "NewFilePath" {
+				f = jen.NewFilePath("a.b/shapes")
+			} else {
+				f = jen.NewFilePathName("a.b/shapes", "shapes")
+			}
+			if variant&1 != 0 {
+				f.PackagePrefix = "pp"
+			}
+			f.ImportAlias("x.y/dot", ".")
+			f.Var().Id("v").Op("=").Qual("a.b/shapes", "Square").Values()
+			if variant&2 != 0 {
+				jh.RenderFile(f)
+			}
+			for _, path := range []string{"a.b/shapes", "x.y/dot"} {
+				var o jh.Outcome
+				if variant&4 != 0 {
+					o = jh.Catch(func() (string, error) {
+						var b strings.Builder
+						var grp *jen.Group
+						jen.CustomFunc(jen.Options{}, func(g *jen.Group) { g.Qual(path, "Square"); grp = g })
+						err := grp.RenderWithFile(&b, f)
+						return b.String(), err
+					})
+				} else {
+					o = jh.Catch(func() (string, error) {
+						var b strings.Builder
+						err := jen.Qual(path, "Square").RenderWithFile(&b, f)
+						return b.String(), err
+					})
+				}
+				r.Eval(1)
+				desc := fmt.Sprintf("Qual(%q, Square) rendered with a File made by %s(a.b/shapes) that dot-imports x.y/dot (variant %03b)", path, ctor, variant)
+				r.Distinct(desc)
+				if !o.OK() || strings.TrimSpace(o.Out) != "Square" {
+					r.Violate(ev.Violation{Signature: "c06:fragment:" + path, What: fmt.Sprintf("%s renders %q, want the bare name", desc, o), Case: ev.JSON(impCase{Ops: []string{desc}})})
+				}
+			}
+		}
+	}
+}
+
 func init() {
 	register(&Check{ID: "C06", Level: "model_checking", Run: func(r *ev.Recorder) {
 		r.Rule = "(1) explicit-state BFS over one real File created with NewFilePath(\"a.b/c\"): references (plain and as Dict key) to the local path, a near miss and three other paths, ImportName, ImportAlias(p, \".\"), ImportAlias(p, d1) and Anon(p) for every path, PackagePrefix, in every order up to the depth bound. " +
-			"(2) canonical pre-render histories for 4 local-path families (local path a.b/c, c, x/y/c/, x/foo/v2; optionally after a 70-entry ImportNames table that names the same paths; near misses: trailing slash, prefix, suffix, case, last element only) via NewFilePath and NewFilePathName: every reference sequence, every subset of paths declared dot-imports (last hint wins; double hints and hints after the references included), prefix on/off, within the deviation bound. " +
+			"(2) canonical pre-render histories for 6 local-path families (local path a.b/c, c, x/y/c/, x/foo/v2, a.b/c_test, encoding/json; optionally after a 70-entry ImportNames table that names the same paths; near misses: trailing slash, prefix, suffix, case, last element only) via NewFilePath and NewFilePathName: every reference sequence, every subset of paths declared dot-imports (last hint wins; double hints and hints after the references included), prefix on/off, within the deviation bound. " +
 			"Oracle on the parsed output: a reference to the local path is a bare identifier and no spec imports it; a reference to a path whose last hint is ImportAlias(p, \".\") is bare and exactly one spec `. \"p\"` exists; every other reference is qualified and its path imported under a name; go/types resolves every identifier (bare ones through the fabricated dot-imported package). " +
-			"(3) scale: 0..260 ordinary imports (sizes around powers of two) before or after 1-3 dot-imports and a local reference, prefix on/off. distinct_nontrivial = distinct outputs containing at least one bare reference"
+			"(4) references to the local and to a dot-imported path as stand-alone fragments rendered with the File: bare. (3) scale: 0..260 ordinary imports (sizes around powers of two) before or after 1-3 dot-imports and a local reference, prefix on/off. distinct_nontrivial = distinct outputs containing at least one bare reference"
 		r.Assume = []string{"the dot-import status of a path is decided by the last hint given before the first render; a path rendered bare once stays a dot-import whatever is hinted afterwards (one scenario option re-hints after a render)", "histories beyond the depth / deviation bounds are outside the bound"}
 		c06Check.run(r)
 		c06Scale(r)
+		c06Fragments(r)
 	}, Replay: c06Check.replay})
 }
